@@ -218,6 +218,9 @@ def main(argv=None):
             rc = 3
         elif undecided:
             rc = 2
+    if os.environ.get("VERIF_VERBOSE"):
+        for m in sorted(metas.values(), key=lambda m: -m.get("seconds", 0))[:12]:
+            print(f"   slow: {m['id']} {m.get('seconds')}s instr={m.get('n_instr')}")
     print(f"{prop} [{tier}] obligations={n_ob} discharged={n_proved} known-findings={len(seen_known)} "
           f"violations={len(violations)} undecided={len(undecided)} errors={len(errors)} canaries-refuted={n_canary - len(canary_bad)}/{n_canary} "
           f"wall={wall:.1f}s")
